@@ -83,7 +83,34 @@ Value& POWExpression::value(Context & ctx) const
     {
       if (a2.isNull() || a1.isNull())
         return LVAL2(Value(Value::type_integer), a1, a2);
-      Value val(Integer(std::pow(*a1.integer(), *a2.integer())));
+      /* exact integer power modulo 2^64, as operator ** (std::pow loses the
+       * low bits beyond 2^53 and its conversion back is undefined out of range) */
+      uint64_t b = uint64_t(*a1.integer());
+      Integer n = *a2.integer();
+      uint64_t r = 1;
+      if (n < 0)
+      {
+        /* 1 / (b ** -n) truncated toward zero */
+        if (b == 0)
+          throw RuntimeError(EXC_RT_DIVIDE_BY_ZERO);
+        if (b == 1)
+          r = 1;
+        else if (b == uint64_t(-1))
+          r = ((n & 1) ? uint64_t(-1) : 1);
+        else
+          r = 0;
+      }
+      else
+      {
+        while (n > 0)
+        {
+          if (n & 1)
+            r *= b;
+          b *= b;
+          n >>= 1;
+        }
+      }
+      Value val((Integer(r)));
       return LVAL2(val, a1, a2);
     }
     case Type::IMAGINARY:
